@@ -19,7 +19,7 @@ git -C "$W" diff | grep '^[-+][^-+]' | head -${SHOWDIFF:-6}
 ( cd "$W" && GOFLAGS=-mod=mod GOPROXY=off GOTOOLCHAIN=auto go build ./pkg/... ) || { echo "MUTANT DOES NOT BUILD"; exit 2; }
 for P in "$@"; do
   OUT=$(VERIF_REPO="$W" VERIF_EVIDENCE_DIR="$W/.evidence" /verif/check "$P" ${TIER:+--tier $TIER} 2>&1); RC=$?
-  if [ $RC -eq 1 ]; then echo "DETECTED $P by $(basename $PATCH)"; echo "$OUT" | grep -m3 -E "VIOLATION|violat|destroy|differs" | cut -c1-400
+  if [ $RC -eq 1 ]; then echo "DETECTED $P by $(basename $PATCH)"; echo "$OUT" | grep -m3 -E "^VIOLATION" | cut -c1-300
   elif [ $RC -eq 0 ]; then echo "MISSED $P by $(basename $PATCH)"
   else echo "INCONCLUSIVE($RC) $P by $(basename $PATCH)"; echo "$OUT" | tail -15; fi
 done
